@@ -314,6 +314,30 @@ Theorem C11_ems_required_holds_without_resumption :
 Proof. exact ems_required_holds_without_resumption. Qed.
 Print Assumptions C11_ems_required_holds_without_resumption.
 
+(* the requirement is judged on the hellos of THIS handshake, resumed or not ([f_resumed f], [resumable] are free): a
+   client that requires extended master secret completes only on a ServerHello that carries the extension, a server
+   only on a ClientHello that does (seeded change C11d: the client check moved to where a resumption never comes) *)
+Theorem C11_client_requires_ems_in_this_server_hello :
+  forall (ck sk : conn) (cs : list N) (h : hello) (f : server_flight) (o : outcome),
+    client12 ck sk cs h f = ROk o ->
+    (c_ems (k_cfg ck) =? g11_ems_require) = true -> f_ems_ext f = true /\ o_ems o = true.
+Proof. exact client12_requires_ems_in_this_server_hello. Qed.
+Print Assumptions C11_client_requires_ems_in_this_server_hello.
+
+Theorem C11_client_refuses_resumption_without_ems :
+  forall (ck sk : conn) (cs : list N) (h : hello) (f : server_flight),
+    (c_ems (k_cfg ck) =? g11_ems_require) = true -> f_resumed f = true -> f_ems_ext f = false ->
+    forall o, client12 ck sk cs h f <> ROk o.
+Proof. exact client12_refuses_resumption_without_ems. Qed.
+Print Assumptions C11_client_refuses_resumption_without_ems.
+
+Theorem C11_server_requires_ems_in_this_client_hello :
+  forall (k : conn) (ss : list N) (h : hello) (resumable : bool) (f : server_flight),
+    server12 k ss h resumable = ROk f ->
+    (c_ems (k_cfg k) =? g11_ems_require) = true -> h_ems h = true /\ f_ems_ext f = true.
+Proof. exact server12_requires_ems_in_this_client_hello. Qed.
+Print Assumptions C11_server_requires_ems_in_this_client_hello.
+
 (* ... refuted for resumptions: Session{ID, Secret} has no EMS flag, the decision to resume does not depend on it *)
 Theorem C11_ems_required_resumes_session_without_ems_refuted :
   exists c s o, negotiate c s true = Some (Ok o) /\ requires_ems s = true /\ o_resumed o = true /\
